@@ -184,6 +184,16 @@ def make(kind, form='1d', alt=0):
         return S.SE2(make('T2z', alt=alt))
     if k == 'SO3z':
         return S.SO3(make('R3z', alt=alt), check=False)
+    if k in ('SE3sym', 'SO3sym', 'SE2sym', 'SO2sym'):
+        import sympy
+        th, xs = sympy.symbols('theta x', real=True)
+        one = {'SE3sym': lambda: S.SE3.Rx(th) * S.SE3.Rx(th) * S.SE3(xs, 2 + alt, 0), 'SO3sym': lambda: S.SO3.Rx(th) * S.SO3.Ry(th),
+               'SE2sym': lambda: S.SE2(xs, 1 + alt, th) * S.SE2(xs, 1, th), 'SO2sym': lambda: S.SO2(th) * S.SO2(th)}[k]
+        if not multi:
+            return one()
+        o = one()
+        o.data = [one().data[0], (one() * one()).data[0]]
+        return o
     if k == 'SI':
         return S.SpatialInertia(2.0 + alt, [0.1, 0.2, 0.3], np.diag([1.0, 2.0, 3.0]))
     if k == 'PL':
@@ -226,6 +236,8 @@ def kinds_of(x):
     n = type(x).__name__
     if n in CLS2KIND and (type(x).__module__ or '').startswith('spatialmath'):
         d = getattr(x, 'data', None)
+        if isinstance(d, list) and any(isinstance(e, np.ndarray) and e.dtype == object for e in d):
+            return []           # symbolic values are explored by their own descriptors only (SymPy is slow; see `slow`)
         if isinstance(d, list) and len(d) != 1:
             return [CLS2KIND[n] + '*'] if len(d) > 1 else []
         return [CLS2KIND[n]]
@@ -451,6 +463,19 @@ def descriptors():
     # 7. random constructors (outputs may differ; arguments must not change)
     for cn in ('SO2', 'SE2', 'SO3', 'SE3', 'UnitQuaternion', 'Twist3'):
         out.append(D('%s.Rand' % cn, (lambda cn: (lambda: getattr(sm(), cn).Rand()))(cn), [], rand=True, site=cn + '.Rand'))
+    # 7b. symbolic poses (object-dtype values): simplify(), inverse, products, element access - the receiver's expressions stay as they are
+    for k in ('SE3sym', 'SO3sym', 'SE2sym', 'SO2sym', 'SE3sym*', 'SO3sym*'):
+        cn = k[:3]
+        sym = [D('%s.simplify/%s' % (cn, k), lambda x: x.simplify(), [k], site=cn + '.simplify'), D('%s.inv/%s' % (cn, k), lambda x: x.inv(), [k], site=cn + '.inv'),
+               D('%s.A/%s' % (cn, k), lambda x: x.A, [k], site=cn + '.A'), D('str/%s' % k, lambda x: str(x), [k], site=cn + '.__str__')]
+        if not k.endswith('*'):
+            sym.append(D('op */%s,%s' % (k, k), operator.mul, [k, k], site='operator*'))
+            sym.append(D('%s[0]/%s' % (cn, k), lambda x: x[0], [k], site=cn + '.getitem'))
+        else:
+            sym.append(D('%s[1]/%s' % (cn, k), lambda x: x[1], [k], site=cn + '.getitem'))
+        for d_ in sym:
+            d_.slow = True          # depth 1 and pairs among themselves only
+        out += sym
     # 8. memory layout: every matrix-argument base function, and the methods / operators that take a block of points, once more with
     #    column-major arguments
     ARR2 = ('R3', 'T3', 'R2', 'T2', 'pts3', 'pts2', 'so3m', 'se3m', 'so2m', 'se2m', 'qN')
@@ -618,6 +643,8 @@ def independent(ctx, k, K):
     base2 = {}
     for d2 in second:
         if not d2.rand and not d2.mut:
+            if getattr(d2, 'slow', False) and not any(getattr(d, 'slow', False) for i_, d in enumerate(DS) if i_ % K == k):
+                continue
             okb, rb = call(d2.f, *fresh(d2, alt=1))
             base2[d2.name] = (okb, snap(rb) if okb else type(rb).__name__)
     for di, d1 in enumerate(DS):
@@ -630,6 +657,8 @@ def independent(ctx, k, K):
         s1, sa = snap(r1), [snap(a) for a in a1]
         # the same function again with other arguments, then every other descriptor
         for d2 in [d1] + second:
+            if getattr(d2, 'slow', False) and not getattr(d1, 'slow', False) and d2 is not d1:
+                continue
             cid = 'C17/ind/%s;%s' % (d1.name, d2.name)
             if not ctx.want(cid, walk=True):
                 continue
